@@ -643,7 +643,7 @@ func init() {
 			{Name: "select-ok-reads-value-slot", File: "fast/select.go", Old: "\t\t\t\tidx := bindok.Desc.Index()\n\t\t\t\tc.SetPlace(place, token.ASSIGN, c.exprBool(", New: "\t\t\t\tidx := bind.Desc.Index()\n\t\t\t\tc.SetPlace(place, token.ASSIGN, c.exprBool("},
 			{Name: "select-send-case-skips-constant-conversion", File: "fast/select.go", Old: "\t\tif esend.Const() {\n\t\t\t// as Comp.Send does: an untyped constant, or nil, takes the element type\n\t\t\tesend.ConstTo(texpected)\n\t\t} else if tactual == nil || !tactual.AssignableTo(texpected) {", New: "\t\tif tactual == nil || !tactual.AssignableTo(texpected) {"},
 			{Name: "send-of-nil-constant-unchecked", File: "fast/channel.go", Old: "\t\tif !v.IsValid() {\n\t\t\t// sending the constant nil: it was converted to telem above\n\t\t\tv = xr.Zero(telem)\n\t\t}\n", New: ""},
-			{Name: "go-statement-ignores-ellipsis", File: "fast/statement.go", Old: "\t\t\tif ellipsis {\n\t\t\t\t// go f(a, xs...) passes xs as the variadic slice\n\t\t\t\tfunv.CallSlice(argv)\n\t\t\t} else {\n\t\t\t\tfunv.Call(argv)\n\t\t\t}\n", New: "\t\t\tfunv.Call(argv)\n"},
+			{Name: "go-statement-ignores-ellipsis", File: "fast/statement.go", Old: "\t\t\tif ellipsis {\n\t\t\t\t// go f(a, xs...) passes xs as the variadic slice\n\t\t\t\tfunv.CallSlice(argv)\n\t\t\t} else {\n\t\t\t\tfunv.Call(argv)\n\t\t\t}\n", New: "\t\t\t_ = ellipsis\n\t\t\tfunv.Call(argv)\n"},
 			{Name: "select-cases-allocated-once", File: "fast/select.go", Old: "\tc.append(func(env *Env) (Stmt, *Env) {\n\t\tcases := make([]xr.SelectCase, len(entries))\n", New: "\tcases := make([]xr.SelectCase, n)\n\tc.append(func(env *Env) (Stmt, *Env) {\n"},
 			{Name: "go-args-evaluated-in-goroutine", File: "fast/statement.go", Old: "\t\t\t\tfunv.Call(argv)\n\t\t\t}\n\t\t}()", New: "\t\t\t\tfunv.Call(append(argv[:0:0], exprfun(env2)))\n\t\t\t}\n\t\t}()", Canary: true},
 			{Name: "go-argument-aliases-variable", File: "fast/statement.go", Old: "\t\t\tv := argfun(env2)\n\t\t\tif v.CanSet() {\n\t\t\t\tv = v.Convert(v.Type()) // make a copy\n\t\t\t}\n\t\t\targv[i] = v\n", New: "\t\t\targv[i] = argfun(env2)\n"},
